@@ -83,6 +83,31 @@ def run(ctx):
         "SymAddrConst": [("attributes", lambda: {A.PLT})],
         "SymAddrAddr": [("attributes", lambda: {A.PLT})],
     }
+    # property setters that take a collection copy it: assigning one node's
+    # mapping / bytes to another node must not make the two share state
+    try:
+        a, b = gtirb.ByteInterval(size=16), gtirb.ByteInterval(size=16)
+        a.symbolic_expressions[3] = gtirb.SymAddrConst(0, sym)
+        b.symbolic_expressions = a.symbolic_expressions
+        before = sorted(b.symbolic_expressions)
+        a.symbolic_expressions[5] = gtirb.SymAddrConst(1, sym)
+        del a.symbolic_expressions[3]
+        after = sorted(b.symbolic_expressions)
+        ctx.evaluations += 1
+        ctx.count("aliasing:setter:symbolic_expressions")
+        ctx.nontriv(("aliasing", "setter", "symbolic_expressions"))
+        if before != [3] or after != [3]:
+            ctx.report({"kind": "shared-state", "class": "ByteInterval",
+                        "argument": "symbolic_expressions setter"},
+                       {"before": before, "after": after},
+                       "after `b.symbolic_expressions = "
+                       "a.symbolic_expressions`, editing a's mapping changed "
+                       "b's: %s -> %s" % (before, after))
+    except Exception as e:   # noqa
+        ctx.report({"kind": "aliasing-raises", "class": "ByteInterval"},
+                   {"argument": "symbolic_expressions setter"},
+                   "assigning one interval's symbolic_expressions to another "
+                   "raised %s" % type(e).__name__)
     for name, mk in makers.items():
         cases = [("defaults", {})]
         for arg, fresh in shared_args[name]:
